@@ -257,14 +257,19 @@ func (ms *MapScen) setupRaw(out *MapLike) MState {
 	case TPlain:
 		putKeys()
 	case TChain2:
+		// a chain of two buckets (ms.Chain = 3, 4: of that many)
+		nf := slots
+		if ms.Chain > 2 {
+			nf = slots * (ms.Chain - 1)
+		}
 		if ms.FillFirst {
-			for j := 0; j < slots; j++ {
+			for j := 0; j < nf; j++ {
 				m.Store(fillTarget+j, 1000+j)
 			}
 			putKeys()
 		} else {
 			putKeys()
-			for j := 0; j < slots; j++ {
+			for j := 0; j < nf; j++ {
 				m.Store(fillTarget+j, 1000+j)
 			}
 		}
